@@ -27,6 +27,15 @@ class CountingIO(__import__("io").BytesIO):
             raise BudgetExceeded("read budget")
         return super().read(*a)
 
+    def tell(self):
+        # position queries count too (at a tenth): a loop that never reads but keeps asking where it is does not terminate either
+        self.reads += 0.1
+        if self.reads > self.budget:
+            from vmc.core.explore import BudgetExceeded
+
+            raise BudgetExceeded("read budget")
+        return super().tell()
+
 
 def _norm(label):
     return re.sub(r"-?\d+", "n", label)
@@ -311,8 +320,12 @@ def leaves():
 
     def fix_leaf(cap, lt_name, lt_bytes, max_len=None):
         def make(member=None, small=False):
-            lt = getattr(C, lt_name)
-            lib = CT.FixedSizeString(cap, lt) if max_len is None else CT.FixedSizeString(cap, lt, max_len)
+            lt = getattr(C, lt_name) if lt_name != "default" else None
+            if lt_name == "default":
+                # the call forms the driver uses: length type left to the default (an unsigned 32-bit LEN)
+                lib = CT.FixedSizeString(cap) if max_len is None else CT.FixedSizeString(cap, max_len_=max_len)
+            else:
+                lib = CT.FixedSizeString(cap, lt) if max_len is None else CT.FixedSizeString(cap, lt, max_len)
             lib = lib(member) if member is not None else lib
             bad = [None, 5, b"ab", "Ā"]
             return TNode(f"FixedSizeString({cap},{lt_name}" + (f",{max_len})" if max_len is not None else ")"), lib, ("fixstr", cap, lt_bytes),
@@ -321,7 +334,7 @@ def leaves():
     for cap, lt, lb in [(1, "UDINT", 4), (20, "UDINT", 4), (82, "UDINT", 4), (480, "UDINT", 4), (12, "UINT", 2), (7, "USINT", 1)]:
         L[f"FixedSizeString({cap},{lt})"] = fix_leaf(cap, lt, lb)
     # the data area of an uploaded string type includes alignment padding: capacity (characters) < size (bytes on the wire)
-    for cap, lt, lb, ml in [(84, "UDINT", 4, 82), (12, "UDINT", 4, 10), (4, "UINT", 2, 1)]:
+    for cap, lt, lb, ml in [(84, "UDINT", 4, 82), (12, "UDINT", 4, 10), (4, "UINT", 2, 1), (84, "default", 4, 82), (20, "default", 4, None), (3, "default", 4, None)]:
         L[f"FixedSizeString({cap},{lt},{ml})"] = fix_leaf(cap, lt, lb, ml)
 
     def ip_leaf(member=None, small=False):
@@ -358,7 +371,7 @@ def special_nodes():
         return [(t, d) for t in ts for d in ds]
 
     dt = TNode("DATE_AND_TIME", C.DATE_AND_TIME, ("datetime",), values=dt_values,
-               invalid=lambda tier: [(1 << 32, 0), (0, 1 << 16), (-1, 0), (None, 0), ("1", 2)],
+               invalid=lambda tier: [(1 << 32, 0), (0, 1 << 16), (-1, 0), (None, 0), ("1", 2), (0, None), (0, -1), ([1], 0), (0, [1]), (1.5, 0), (0, 2.5), ({}, 0)],
                enc=lambda lib, v: lib.encode(*v))
 
     def sn_values(tier):
@@ -370,7 +383,9 @@ def special_nodes():
         return out
 
     sn = TNode("STRINGN", C.STRINGN, ("stringn",), values=sn_values,
-               invalid=lambda tier: [("a", 3), ("a", 0), (None, 1), (5, 1), ("\xe9", 1), ("\U0001F600", 2), ("x" * 65536, 1)],
+               invalid=lambda tier: [("a", 3), ("a", 0), (None, 1), (5, 1), ("\xe9", 1), ("\U0001F600", 2), ("x" * 65536, 1),
+                                     # the character size is an argument too: every kind of wrong object, hashable or not
+                                     ("a", -1), ("a", None), ("a", "1"), ("a", 1.5), ("a", (1,)), ("a", [1]), ("a", {}), ("a", {1}), ("a", bytearray(b"\x01")), ("a", 8), ("a", True + 1 == 3)],
                enc=lambda lib, v: lib.encode(v[0], v[1]))
     sn.expected_roundtrip = lambda v: v[0]
 
@@ -522,6 +537,10 @@ def make_struct(members, member=None):
             mis[k + "_"] = g[k]
             bad.append(mis)
             bad.append(list(g.values())[:-1] if len(g) > 1 else [])
+            # every member missing in turn (a BOOL member would take any stand-in by truthiness), and present only under another letter case
+            for kk in names[1:]:
+                bad.append({x: y for x, y in g.items() if x != kk})
+            bad.append({(x.upper() if x == names[-1] else x): y for x, y in g.items()})
         else:
             bad.append(list(good)[:-1])
         for i, (n, m) in enumerate(members):
